@@ -149,6 +149,7 @@ func contractsCmd(args []string) {
 		fmt.Println("contracts:", err)
 		os.Exit(2)
 	}
+	cs.Attach(p)
 	fmt.Println("contract files:", files)
 	re := regexp.MustCompile(*match)
 	for _, name := range cs.Order {
